@@ -11,10 +11,11 @@ use vcommon::{fingerprint, CheckDef, ClassPlan, Ctx, Outcome, PassInfo, Tape, Ti
 pub static DEF: CheckDef = CheckDef {
     id: "C16",
     level: "exploration",
-    rule: "Per run one batch (thorough: several) of 16 schema groups is generated from the run seed: each group is up to three schemas (two importable dependencies and a main schema) from the grammar-directed generator in clean mode - all built-in types, generics nested up to depth 4, arrays with literal and constant lengths, optional/required fields, struct/enum fallbacks, newtypes incl. key newtypes as map/set keys, inline structs/enums in functions and events, external references, identifiers incl. Rust keywords as raw identifiers - plus a 'newer version' of each main schema (every struct gains optional fields, every enum variants, every service a function and an event). Parser and Generator::rust run in-process, the modules and a registry are compiled once per batch into a scratch crate depending on <repo>/aldrin (class compile: one verdict per module), and the built binary serves type-erased decode-then-encode requests. Classes value / mutation / oldnew draw (type, value) from a proptest tape: values are built from the schema AST by the restated wire contract (harness/schema/src/contract.rs) as reference-codec trees in either container encoding, with non-canonical varints, shuffled field order and unknown field ids / variants. Non-trivial = the type has >= 1 optional and >= 1 required field or >= 2 variants, and a container-typed member; distinct = distinct (type, value bytes).",
+    rule: "Per run one batch (thorough: several) of 16 schema groups is generated from the run seed: each group is up to three schemas (two importable dependencies and a main schema) from the grammar-directed generator in clean mode - all built-in types, generics nested up to depth 4, arrays with literal and constant lengths, optional/required fields, struct/enum fallbacks, newtypes incl. key newtypes as map/set keys, inline structs/enums in functions and events, external references, identifiers incl. Rust keywords as raw identifiers - plus a 'newer version' of each main schema (every struct gains optional fields, every enum variants, every service a function and an event); one further group holds the repository's own code generator test schemas (codegen/test/*.aldrin, translated from the parser's AST into the harness' model), so that the restated contract is cross-checked on the types upstream's tests pin. Parser and Generator::rust run in-process, the modules and a registry are compiled once per batch into a scratch crate depending on <repo>/aldrin (class compile: one verdict per module), and the built binary serves type-erased decode-then-encode requests. Classes value / mutation / oldnew draw (type, value) from a proptest tape: values are built from the schema AST by the restated wire contract (harness/schema/src/contract.rs) as reference-codec trees in either container encoding, with non-canonical varints, shuffled field order and unknown field ids / variants. Non-trivial = the type has >= 1 optional and >= 1 required field or >= 2 variants, and a container-typed member; distinct = distinct (type, value bytes).",
     assumptions: &[
         "the wire contract per schema type is restated in contract.rs (optional field = absent | none | some(x); result = enum 0/1; [T; N] = sequence of exactly N; newtype and box transparent; lifetime = object id; unit = none; vec<u8> = byte string because the generator maps it to its bytes type); it was cross-checked against the schemas and values of codegen/src/rust/test.rs",
         "meaning is compared with the reference codec (codec::refcodec::sem): container encoding, varint width, field order and chunking are not part of it",
+        "array lengths are at most 8 (generated Rust arrays are stack values; a 255 x 255 array of 32-byte elements overflows the 8 MiB main thread stack of a debug build while decoding - a resource limit, not the subject of the property); the oracle server decodes on a thread with a 1 GiB stack",
         "excluded by construction and counted: the five names rustc cannot write as raw identifiers (self, Self, super, crate, _), attributes that request extra derives (#[rust(impl_copy, ..)]), names that collide in the generated module (X / XRef, S / SProxy, ..) and schemas the parser rejects",
         "a type whose module did not compile is reported once by the compile class and skipped by the value classes",
     ],
@@ -22,22 +23,27 @@ pub static DEF: CheckDef = CheckDef {
     case,
     render,
     crashy: false,
+    // shares of all evaluations of a run; a batch is one sample of 16 schema groups, so the shares
+    // vary by a factor of two to three between seeds - the floors sit well below the observed range
     floors: &[
-        ("value:roundtrip-ok", 0.25),
-        ("mutation:rejected", 0.15),
-        ("oldnew:survived", 0.05),
-        ("value:nontrivial-type", 0.06),
-        ("value:unknown-fields-kept", 0.02),
-        ("value:unknown-fields-dropped", 0.02),
-        ("value:unknown-variant-kept", 0.003),
-        ("value:upstream-test-schema-type", 0.03),
-        ("value:epoch1", 0.15),
-        ("value:epoch2", 0.15),
-        ("mutation:required-field-dropped", 0.01),
+        ("value:roundtrip-ok", 0.20),
+        ("mutation:rejected", 0.12),
+        ("oldnew:survived", 0.03),
+        ("oldnew:newer-members-present", 0.02),
+        ("value:nontrivial-type", 0.03),
+        ("value:unknown-fields-kept", 0.002),
+        ("value:unknown-fields-dropped", 0.005),
+        ("value:unknown-variant-kept", 0.001),
+        ("value:upstream-test-schema-type", 0.02),
+        ("value:inline-type", 0.01),
+        ("value:epoch1", 0.08),
+        ("value:epoch2", 0.08),
+        ("mutation:required-field-dropped", 0.004),
         ("mutation:wrong-kind", 0.02),
-        ("mutation:unknown-variant-no-fallback", 0.005),
-        ("mutation:array-too-short", 0.001),
-        ("mutation:array-too-long", 0.001),
+        ("mutation:unknown-variant-no-fallback", 0.003),
+        ("mutation:array-too-short", 0.0005),
+        ("mutation:array-too-long", 0.0005),
+        ("compile:ok", 0.0008),
     ],
     extra: Some(extra),
     extra_coverage: Some(extra_coverage),
@@ -141,6 +147,7 @@ pub struct Runtime {
     /// Value types (structs, enums, newtypes) of the base variant of every group.
     pub targets: Vec<Target>,
     pub crate_dir: String,
+    pub confirmed_deaths: u32,
 }
 
 impl Runtime {
@@ -163,29 +170,44 @@ impl Runtime {
         v
     }
 
-    pub fn request(&mut self, f: impl FnOnce(&mut Server) -> Reply) -> Reply {
-        for attempt in 0..2 {
-            if self.server.is_none() {
-                if let Some(bin) = &self.report.binary {
-                    match Server::spawn(bin) {
-                        Ok(s) => self.server = Some(s),
-                        Err(e) => return Reply::Dead(e),
-                    }
-                } else {
-                    return Reply::Dead("no oracle server binary".into());
+    fn ensure_server(&mut self) -> Result<(), String> {
+        if self.server.is_none() {
+            match &self.report.binary {
+                Some(bin) => self.server = Some(Server::spawn(bin)?),
+                None => return Err("no oracle server binary".into()),
+            }
+        }
+        Ok(())
+    }
+
+    /// Sends one request. If the server is found dead (killed from outside, or crashed on an
+    /// earlier request) it is restarted and the request repeated once, so that `Reply::Dead` means
+    /// "this very request kills the server".
+    pub fn request(&mut self, f: impl Fn(&mut Server) -> Reply) -> Reply {
+        let mut last = Reply::Dead("not started".into());
+        if self.confirmed_deaths >= 12 {
+            // a request that kills the server has been reported; restarting the server for every
+            // shrinking candidate would take hours
+            return Reply::Dead("the oracle server died repeatedly in this process; not restarted any more".into());
+        }
+        for _ in 0..2 {
+            if let Err(e) = self.ensure_server() {
+                return Reply::Dead(e);
+            }
+            last = f(self.server.as_mut().unwrap());
+            if std::env::var_os("VERIF_DEBUG").is_some() {
+                if let Reply::Dead(m) = &last {
+                    eprintln!("debug: oracle server dead: {m} after {}", self.server.as_ref().map(|s| s.last_request.clone()).unwrap_or_default());
                 }
             }
-            if attempt == 1 {
-                break;
+            if matches!(last, Reply::Dead(_)) {
+                self.server = None;
+                continue;
             }
-            break;
+            return last;
         }
-        let r = f(self.server.as_mut().unwrap());
-        if matches!(r, Reply::Dead(_)) {
-            // the server died (e.g. abort inside generated code): next request starts a new one
-            self.server = None;
-        }
-        r
+        self.confirmed_deaths += 1;
+        last
     }
 }
 
@@ -215,7 +237,7 @@ fn make_runtime(id: BatchId) -> Runtime {
         }
     }
     let crate_dir = report.binary.as_ref().and_then(|b| b.parent()).map(|p| p.to_string_lossy().to_string()).unwrap_or_default();
-    Runtime { batch, prep, report, server: None, targets, crate_dir }
+    Runtime { batch, prep, report, server: None, targets, crate_dir, confirmed_deaths: 0 }
 }
 
 pub fn with_runtime<R>(id: BatchId, f: impl FnOnce(&mut Runtime) -> R) -> R {
@@ -315,8 +337,18 @@ fn compile_case(rt: &mut Runtime, tape: &[u8]) -> Outcome {
     let m = rt.prep.modules[i].clone();
     let fp = fingerprint(m.rust.as_bytes());
     if let Some(err) = rt.report.failed_modules.get(&m.file) {
+        // errors inside a generated `#[aldrin(doc = "..")]` attribute share a signature prefix: the
+        // rustc message depends on which character of the doc text broke the string literal
+        let first_block: String = err.split("\nerror").next().unwrap_or("").to_string();
+        let area = if first_block.contains("#[aldrin(doc =") {
+            "doc-attribute:"
+        } else if first_block.contains("| pub const ") {
+            "const-definition:"
+        } else {
+            ""
+        };
         return Outcome::fail(
-            format!("compile:{}", first_error_line(err)),
+            format!("compile:{area}{}", first_error_line(err)),
             format!(
                 "the Rust module generated for schema `{}` ({}/src/{}) does not compile:\n{}\nschema:\n{}",
                 m.schema,
@@ -502,11 +534,19 @@ fn rt_dir(m: &Module) -> String {
 /// A value of the newer schema passes through the older type (with fallback) and back.
 fn oldnew_case(rt: &mut Runtime, tape: &[u8]) -> Outcome {
     let mut t = Tape::new(tape);
-    // groups that have a compiled "members added" variant
+    // (group, variant) pairs with a "members added" variant whose older main schema has at least
+    // one struct/enum with a fallback
     let cands: Vec<(usize, String)> = rt
         .batch
         .groups
         .iter()
+        .filter(|g| {
+            batch::nodes(&g.main.model).iter().any(|n| match &n.body {
+                batch::NodeBody::Struct(b) => b.fallback.is_some(),
+                batch::NodeBody::Enum(b) => b.fallback.is_some(),
+                _ => false,
+            })
+        })
         .filter_map(|g| g.variants.iter().find(|v| v.label == "edit:members-added").map(|v| (g.index, v.tag.clone())))
         .collect();
     if cands.is_empty() {
